@@ -91,6 +91,29 @@ impl Model {
         }
         let r = c.obs.resps.first();
 
+        // a request whose body exceeds the item size limit: 0x03, loud, nothing changed
+        if let Some(limit) = self.item_limit {
+            let body = match c.cmd {
+                Cmd::Store { key, value, .. } => 8 + key.len() + value.len(),
+                Cmd::Concat { key, value, .. } => key.len() + value.len(),
+                _ => 0,
+            };
+            if body > limit as usize {
+                match r {
+                    Some(x) if x.status == st::TOO_LARGE => {}
+                    other => out.push(v(
+                        "too-large",
+                        format!("{} with a {}-byte body (limit {}) answered {:?}, expected 0x03", c.cmd.short(), body, limit, other.map(|x| x.short())),
+                    )),
+                }
+                if c.before != c.after {
+                    out.push(v("too-large", format!("{} (over the limit) changed the store", c.cmd.short())));
+                    self.resync_all(c.after);
+                }
+                return out;
+            }
+        }
+
         match c.cmd {
             Cmd::Noop | Cmd::Version | Cmd::Stat => {
                 match r {
